@@ -2,5 +2,5 @@ CONSTANTS NodeId0 = 5  Walk = FALSE  WalkLen = 0
 CONSTANT Ident <- ID  Letters <- L20L  ProbeLetters <- PL20
 INIT Init
 NEXT Next
-VIEW View
+VIEW ViewM
 INVARIANT InvC18 InvC20L
